@@ -8,6 +8,9 @@ From DG Require Import ProtoWireRef ProtoWireRefProofs ThriftWire ThriftWireProo
 Import ListNotations.
 Local Open Scope Z_scope.
 
+(* key_of_step consults skip_go (depth fuel 1023) before decoding a raw key: never unfold it during conversion *)
+Opaque skip_go.
+
 (* ---------------- offset-free view of lookup ---------------- *)
 Definition lsub (r : lres) : lres := match r with LFound s _ => LFound s 0 | x => x end.
 Definition of_opt (o : option tval) : lres := match o with Some c => LFound c 0 | None => LNotFound end.
